@@ -9,6 +9,7 @@ mod event;
 mod mpmc;
 mod infra;
 mod mutex;
+mod oneshot;
 mod semaphore;
 mod timer;
 
@@ -50,6 +51,16 @@ fn make_sut(prim: &str, flavour: &str, consts: &Value) -> Option<Box<dyn Sut>> {
         ("timer", "pl-local") => Box::new(timer::TimerSut::<timer::ViaLocal<Pl>>::new(consts)),
         ("timer", "vlock") => Box::new(timer::TimerSut::<timer::ViaSync<VLock>>::new(consts)),
         ("mpmc", fl) => return make_mpmc(fl, consts),
+        ("oneshot", "local") => Box::new(oneshot::OneSut::<oneshot::BorrowedOne<Noop>>::new(consts)),
+        ("oneshot", "pl") => Box::new(oneshot::OneSut::<oneshot::BorrowedOne<Pl>>::new(consts)),
+        ("oneshot", "vlock") => Box::new(oneshot::OneSut::<oneshot::BorrowedOne<VLock>>::new(consts)),
+        ("oneshot", "shared") => Box::new(oneshot::OneSut::<oneshot::SharedOne<Pl>>::new(consts)),
+        ("oneshot", "shared-vlock") => Box::new(oneshot::OneSut::<oneshot::SharedOne<VLock>>::new(consts)),
+        ("oneshot", "bc-local") => Box::new(oneshot::OneSut::<oneshot::BorrowedBc<Noop>>::new(consts)),
+        ("oneshot", "bc-pl") => Box::new(oneshot::OneSut::<oneshot::BorrowedBc<Pl>>::new(consts)),
+        ("oneshot", "bc-vlock") => Box::new(oneshot::OneSut::<oneshot::BorrowedBc<VLock>>::new(consts)),
+        ("oneshot", "bc-shared") => Box::new(oneshot::OneSut::<oneshot::SharedBc<Pl>>::new(consts)),
+        ("oneshot", "bc-shared-vlock") => Box::new(oneshot::OneSut::<oneshot::SharedBc<VLock>>::new(consts)),
         _ => return None,
     })
 }
@@ -223,6 +234,9 @@ fn cmd_random(args: &[String]) -> i32 {
         let mut r = Runner::new(sut.as_mut(), flavour == "vlock");
         for _ in 0..len {
             let e = r.sut.random_op(&mut rng);
+            if e["op"] == "idle" {
+                break;
+            }
             r.step(&e, None, false);
         }
         let res = r.finish();
